@@ -15,6 +15,7 @@ ASSUMPTIONS = [
     "(thorough: also at a chosen prefix); Schedule.from_job_sequences replay is part of C14",
 ]
 STUBS = ["max", "min", "int (dispatcher module only)"]
+XHAIR_PREFIX = "c02_"   # leaf kernels re-decided by CrossHair (vf/xhair/kernels.py)
 BUDGET = {"quick": 420, "thorough": 2400}
 
 
